@@ -11,9 +11,17 @@ C17: on the 206 path Content-Range == "bytes {s}-{e-1}/{size}", Content-Length =
      -> 304 built without a body and without opening the file; HEAD -> body ''.
 """
 import z3
-from pyvc.engine import (Contract, VInt, VBool, VStr, VObj, VFunc, VTuple, VNone, NONE, Unsupported, StrSort)
+import ast
+from pyvc.engine import (Contract, Val, VInt, VBool, VStr, VObj, VFunc, VTuple, VNone, NONE, Unsupported, StrSort)
 
 S = z3.StringVal
+
+
+class MTime(Val):
+    """st_mtime: a float = whole seconds `sec` plus a fraction in [0, 1) that may be non-zero (`frac_nz`)"""
+
+    def __init__(self, sec, frac_nz):
+        self.sec, self.frac_nz = sec, frac_nz
 
 
 class StaticFile(Contract):
@@ -26,7 +34,8 @@ class StaticFile(Contract):
         'functions that do not touch the file named (abspath is lexical); os.sep is the platform separator',
         'callee contract of get_first_range (proved in contracts/C17.py): None or (s, e) with 0 <= s < e <= size',
         'callee contract of _file_iter_range (proved in contracts/C17.py): yields exactly file[s:e] in chunks <= maxread',
-        'st_mtime is modelled as an integer (the code only uses int(st_mtime) and formats it)',
+        'st_mtime is a non-negative float: whole seconds plus a fraction in [0,1); Last-Modified has one-second resolution, so '
+        '"not older than the file" is judged at that resolution: If-Modified-Since >= int(st_mtime)',
         'precondition: an If-Modified-Since header that is present is not the empty string (an empty one makes the '
         'comparison `"" >= int` raise TypeError - observed, outside the statement of C17)',
     )
@@ -47,7 +56,9 @@ class StaticFile(Contract):
         self.rootp = z3.Concat(self.abspath(self.root_arg), self.sep)
         self.T = self.abspath(self.join(self.rootp, self.strip(self.fn_arg)))
         self.size = X.fresh(z3.IntSort(), 'st_size')
-        self.mtime = X.fresh(z3.IntSort(), 'st_mtime')
+        self.mtime = X.fresh(z3.IntSort(), 'st_mtime_seconds')
+        self.mtime_frac_nz = X.fresh(z3.BoolSort(), 'st_mtime_has_fraction')
+        X.assume(self.mtime >= 0)
         X.assume(self.size >= 0)
         self.method = X.fresh(StrSort, 'method')
         self.opened = []
@@ -67,7 +78,7 @@ class StaticFile(Contract):
                 if label == 'open':
                     return VObj('File', {})
                 if label == 'stat':
-                    return VObj('Stat', {'st_size': VInt(c.size), 'st_mtime': VInt(c.mtime)})
+                    return VObj('Stat', {'st_size': VInt(c.size), 'st_mtime': MTime(c.mtime, c.mtime_frac_nz)})
                 return X.fresh_bool(label)
             return f
 
@@ -135,6 +146,18 @@ class StaticFile(Contract):
             if args:
                 return VStr(self.strip(obj.t))
             return VStr(X.driver.uf('strip_ws', StrSort, StrSort)(obj.t))
+        return None
+
+    def builtin_hook(self, X, name, args, kwargs):
+        if name == 'int' and len(args) == 1 and isinstance(args[0], MTime):
+            return VInt(args[0].sec)            # int() truncates; the time stamp is not negative
+        return None
+
+    def compare_hook(self, X, op, a, b):
+        # int <op> float time stamp, exact:  i >= sec + frac  <=>  i >= sec + (1 if frac != 0 else 0)   etc.
+        if isinstance(a, VInt) and isinstance(b, MTime):
+            up = b.sec + z3.If(b.frac_nz, 1, 0)
+            return {ast.GtE: a.t >= up, ast.Gt: a.t > b.sec, ast.LtE: a.t <= b.sec, ast.Lt: a.t < up}.get(type(op))
         return None
 
     def str_hook(self, X, a):
